@@ -15,7 +15,7 @@ import vlib, campaign, inproc
 
 LEVEL = "fault_enumeration"
 ERRNO = {"EIO": errno.EIO, "ENOSPC": errno.ENOSPC, "EPIPE": errno.EPIPE, "EFBIG": errno.EFBIG}
-PROMPT_S = 20.0       # "promptly": far below the harness timeout even on a loaded machine
+PROMPT_S = 30.0       # "promptly": far below the harness timeout even on a loaded machine
 
 
 def model(rep):
